@@ -6,6 +6,7 @@ import MptModel.Lemmas.Cobs
 import MptModel.Lemmas.Encode
 import MptModel.Lemmas.EncodeZpe
 import MptModel.Lemmas.EncodeString
+import MptModel.Lemmas.ArrayPush
 import MptModel.Lemmas.DecodeCommand
 namespace Mpt.C01
 open Mpt.Cobs Mpt.Codec
@@ -65,6 +66,12 @@ theorem py_roundtrip (m : List Byte) : dec .cobs (pyEnc m) = some m := by
   rw [py_refines]; exact roundtrip .cobs m
 
 example : pyEnc [1, 0, 2] = [2, 1, 2, 2, 0] := by decide
+
+/-- the (repaired) Python client's `encode_command` admits exactly the zero-free messages and frames them
+    like the reference -/
+theorem py_cmd_refines (m : List Byte) : pyCmd m = encStr m := rfl
+
+example : pyCmd [0x68, 0, 0x69] = none ∧ pyCmd [0x68, 0x69] = some [0x68, 0x69, 0] := by decide
 
 
 /-! ### the implementation model refines the reference encoder -/
@@ -136,6 +143,32 @@ theorem encoder_total_all (v : Variant) (fill : Byte) (win : List Byte) (chunks 
   obtain ⟨o, ho⟩ := sched_totalM v fill chunks {} win [] [] hne (by simpa using hsp) hinv
   exact ⟨o, ho, (encoder_refines v fill _ win chunks [] o ho).1⟩
 
+
+/-! ### `mpt_array_push` (the retry loop that grows the array) -/
+
+/-- `mpt_array_push` with data always returns (the retry loop needs at most `2·len + 1` encoder calls: a call
+    that takes nothing — MissingBuffer or the zero return at a full block — is followed by a growth of 64
+    bytes, after which data is taken), takes the whole piece, and keeps the array well-formed. -/
+theorem array_push_total (v : Variant) (fill : Byte) (a : EncArray) (pre : List Byte) (ms : List (Byte × Bool))
+    (bytes : List Byte) (h : ArrInv v a pre ms) (hne : bytes ≠ []) :
+    ∃ a' cons ms', arrayPush (.cobs v) fill a (some bytes) = .ok (a', (bytes.length : Int), cons) ∧
+      ArrInv v a' pre ms' ∧ ms'.map Prod.fst = ms.map Prod.fst ++ bytes :=
+  arrayPush_data v fill a pre ms bytes h hne
+
+/-- a message handed to `mpt_array_push` in any pieces and terminated, starting from the empty array or
+    behind earlier frames `pre`: every call returns, the finished data is `pre` followed by a frame that
+    decodes to the message -/
+theorem array_push_refines (v : Variant) (fill : Byte) (a : EncArray) (pre : List Byte) (chunks : List (List Byte))
+    (h : ArrInv v a pre []) (hne : ∀ c ∈ chunks, c ≠ []) :
+    ∃ a' buf' frame, arrayMessage (.cobs v) fill a chunks = .ok a' ∧ a'.buf = some buf' ∧
+      buf'.take a'.st.done = pre ++ frame ∧ dec v frame = some chunks.flatten ∧ ArrInv v a' (pre ++ frame) [] := by
+  obtain ⟨a', buf', ms', e1, e2, e3, e4, e5⟩ := arrayMessage_spec v fill chunks a pre [] h hne
+  refine ⟨a', buf', encB v [] false ms' ++ [0], e1, e2, e4, ?_, e5⟩
+  rw [dec_body_frame v ms', e3]; simp
+
+set_option maxRecDepth 8000 in
+example : (arrayMessage (.cobs .zpeR) 0xBE {} [[7, 0], [0, 9]]).toOption.map
+    (fun a => (a.buf.getD []).take a.st.done) = some (encChunks .zpeR [[7, 0], [0, 9]]) := by decide
 
 /-! ### command text: the models of mpt_encode_string / mpt_decode_command -/
 
